@@ -27,7 +27,8 @@ class XShape:
         self.ftypes = ftypes or {}
 
     def code(self):
-        return '%s:%s%s' % (self.kind[0], ','.join(s + (str(n) if s != 'u' else '') for s, n in self.variants), '|g' if self.generics else '')
+        return '%s:%s%s%s' % (self.kind[0], ','.join(s + (str(n) if s != 'u' else '') for s, n in self.variants), '|g' if self.generics else '',
+                              '|ty' if (self.ftypes and not self.generics) else '')
 
     def positions(self):
         return [(vi, fi) for vi, (s, n) in enumerate(self.variants) for fi in range(n)]
@@ -265,7 +266,10 @@ def needs(group, cfgs_present):
 
 def xshapes(level='small'):
     sh = [XShape('struct', [('n', 2)]), XShape('struct', [('t', 2)]), XShape('enum', [('t', 2), ('n', 2)]),
-          XShape('enum', [('n', 1), ('t', 2)]), XShape('union', [('n', 2)])]
+          XShape('enum', [('n', 1), ('t', 2)]), XShape('union', [('n', 2)]),
+          # pairwise distinct field types (anything keyed by a field type sees several keys)
+          XShape('enum', [('t', 2), ('n', 2)], ftypes={(0, 0): 'u8', (0, 1): 'u16', (1, 0): 'u32', (1, 1): 'u64'}),
+          XShape('struct', [('n', 3)], ftypes={(0, 0): 'u8', (0, 1): 'i16', (0, 2): 'char'})]
     if level != 'small':
         sh += [XShape('struct', [('n', 1)]), XShape('struct', [('u', 0)]), XShape('enum', [('u', 0), ('t', 1), ('n', 2)]),
                XShape('enum', [('t', 1)]), XShape('struct', [('n', 3)]), XShape('union', [('n', 1)]),
